@@ -492,9 +492,10 @@ seq_t dtw_warping_paths{{ suffix }}{{ suffix2 }}(seq_t *wps,
         if (mir_value < mic_value) {
             // last column has smallest value
             if (psi_neg) {
+                // Rows after the smallest value; final_wpsi is the last column of the last row and the
+                // rows whose band reaches the last column store it at the same offset
                 for (idx_t ri=mir_rel + 1; ri<l1 + 1; ri++) {
-                    wpsi = ri*p.width + (p.width - 1);
-                    wps[wpsi] = -1;
+                    wps[final_wpsi - (l1 - ri) * p.width] = -1;
                 }
             }
             rvalue = mir_value;
